@@ -504,6 +504,9 @@ MISSING = Missing()
 _ATOMS = (Obj, ClassV, Opaque, Func, Bound, Builtin, Callback, ExtV, ModuleV, Seg)
 
 
+MODELLED_EXTERN_BASES = {"enum.Enum", "enum.IntEnum", "enum.StrEnum", "dill.Pickler", "pickle.Pickler", "pickle._Pickler", "abc.ABC", "typing.Generic", "typing.Protocol"}
+
+
 def id_slot(o):
     """The address an object lives at.  Injective on objects that are alive at the same time; a harness may give a *new* object
     the slot of an object that has become unreachable (CPython re-uses the address of a collected object)."""
@@ -1100,12 +1103,18 @@ class Interp:
         for d in reversed(st.decorator_list):
             dv = self.ev(d, fr)
             f = self.call(dv, [f], {})
+            if isinstance(f, ExtV) and not f.methods.get("__strict__"):
+                raise Unknown(f"function {st.name} is wrapped by the unmodelled decorator {ast.unparse(d)}")
         self._store_name(st.name, f, fr)
 
     def st_ClassDef(self, st, fr):
         bases = [self.ev(b, fr) for b in st.bases]
         for i, b in enumerate(bases):
             if isinstance(b, ExtV):
+                # a base class from another package: modelled ones only (a stand-in installed by the harness, enum, abc, typing);
+                # deriving from anything else is not evaluated (the names the statement binds are poisoned: UNDECIDED on use)
+                if not (b.name in MODELLED_EXTERN_BASES or b.name in self.w.ext_overrides or b.name.startswith(("typing.", "abc.", "collections.abc."))):
+                    raise Unknown(f"class {st.name} derives from the unmodelled external class {b.name}")
                 bases[i] = b = self.w.B.extern_class(b)
             if not isinstance(b, ClassV):
                 raise Unknown(f"class {st.name}: base is not a class value ({b!r})")
@@ -1124,12 +1133,41 @@ class Interp:
         cfr = Frame(fr.module, c.dict, cls=c, func=fr.func, env=fr, is_class=True)
         for s in st.body:
             self.exec_stmt(s, cfr)
+        if any(getattr(b, "extern", False) and getattr(b, "qual", "") in ("enum.Enum", "enum.IntEnum", "enum.StrEnum") for b in c.mro):
+            self._make_enum(c)
         if st.decorator_list:
             v = c
             for d in reversed(st.decorator_list):
                 v = self.call(self.ev(d, fr), [v], {})
+                if isinstance(v, ExtV) and not v.methods.get("__strict__"):
+                    raise Unknown(f"class {st.name} is wrapped by the unmodelled decorator {ast.unparse(d)}")
             c = v
         self._store_name(st.name, c, fr)
+
+    def _make_enum(self, c):
+        """enum.Enum subclass: every plain class attribute becomes a member object (singleton per name, .name/.value), the class is
+        iterable over its members in definition order and callable with a value."""
+        B = self.w.B
+        members = []
+        for k, v in list(c.dict.items()):
+            if k.startswith("_") or isinstance(v, (Func, Prop, ClassMethod, StaticMethod, Builtin, ClassV)):
+                continue
+            m = next((x for x in members if keq(x.fields["_value_"], v)), None)     # an alias of an earlier member
+            if m is None:
+                m = Obj(c, f"{c.name}.{k}")
+                m.fields["_name_"], m.fields["_value_"] = k, v
+                m.fields["name"], m.fields["value"] = k, v
+                members.append(m)
+            c.dict[k] = m
+        c.dict["_enum_members_"] = members
+
+        def construct(I, cls, value=MISSING, *a, **k):
+            for m in cls.dict.get("_enum_members_", []):
+                if I.eq(m.fields["_value_"], value):
+                    return m
+            raise Raised(B.mkexc("ValueError", f"{value!r} is not a valid {cls.name}"))
+        c.dict["__construct__"] = Builtin(c.name + ".__call__", construct)
+        c.builtin_construct = True
 
     def st_Try(self, st, fr):
         try:
@@ -1423,6 +1461,12 @@ class Interp:
             if name in ("__doc__",):
                 return None
             raise self.attr_error(o, name)
+        if isinstance(o, Builtin):
+            at = getattr(o, "attrs", None)
+            if at and name in at:
+                return at[name]
+            if name == "__name__":
+                return o.name.rsplit(".", 1)[-1]
         if isinstance(o, Prop):
             if name == "setter":
                 return Builtin("property.setter", lambda I, f, _p=o: Prop(_p.fget, f, _p.fdel))
@@ -2110,6 +2154,9 @@ class Interp:
 
     def default_construct(self, c, args, kw):
         B = self.w.B
+        if getattr(c, "builtin_construct", False) or any(getattr(k_, "builtin_construct", False) for k_ in c.mro):
+            owner = next(k_ for k_ in c.mro if "__construct__" in k_.dict)
+            return owner.dict["__construct__"].fn(self, c, *args, **kw)
         for k in c.mro:
             if k.builtin and "__construct__" in k.dict and k is not B.OBJECT:
                 # subclass of a modelled built-in (exceptions, type ...)
@@ -2232,6 +2279,8 @@ class Interp:
         f = self.uover(v, "__iter__")
         if f is not None:
             return self.iterate(self.call(f, [v], {}))
+        if isinstance(v, ClassV) and "_enum_members_" in v.dict:
+            return list(v.dict["_enum_members_"])
         if isinstance(v, Seq):
             if v.has_seg():
                 raise Unknown("iterating over an opaque segment")
